@@ -243,10 +243,19 @@ type Summary struct {
 	HasFail  bool
 }
 
+// AssignPoint is a classified assignment with the state before it.
+type AssignPoint struct {
+	Stmt   *ast.AssignStmt
+	Tags   []Tag
+	Before *State
+	InLoop bool
+}
+
 // Result of analysing one function body.
 type Result struct {
 	Exits    []*Exit
 	Calls    []*CallPoint
+	Assigns  []*AssignPoint
 	Drops    []Drop
 	Swallows []Swallow
 	Sum      *Summary
@@ -259,6 +268,8 @@ type Spec struct {
 	Classify func(pkg *packages.Package, call *ast.CallExpr, callee *types.Func) []Tag
 	// CondTags optionally returns tags established on the given branch of a condition.
 	CondTags func(pkg *packages.Package, cond ast.Expr, branch bool) []Tag
+	// AssignTags optionally returns tags for an assignment statement (stores into fields / map elements).
+	AssignTags func(pkg *packages.Package, as *ast.AssignStmt) []Tag
 	// Depth is the number of callee frames summarised below the analysed function.
 	Depth int
 	// NoDescend prevents summarising a callee (its own tags still apply).
@@ -1158,6 +1169,16 @@ func (r *runner) exprNil(e ast.Expr, st *State) int8 {
 func (r *runner) assign(b *cfg.Block, a *ast.AssignStmt, st *State) {
 	for _, e := range a.Rhs {
 		r.evalExpr(b, e, st)
+	}
+	if r.sp.AssignTags != nil {
+		if tags := r.sp.AssignTags(r.pkg, a); len(tags) > 0 {
+			if r.record {
+				r.res.Assigns = append(r.res.Assigns, &AssignPoint{Stmt: a, Tags: tags, Before: st.copy(), InLoop: r.inLoop[b]})
+			}
+			for _, t := range tags {
+				r.addTag(st, t)
+			}
+		}
 	}
 	// non-identifier LHS expressions are evaluated (x.f = ..., m[k] = ...)
 	for _, l := range a.Lhs {
